@@ -156,7 +156,7 @@ func (v *FnVerifier) closedFact(x string, t types.Type, alloc string, depth int)
 	case *types.Pointer, *types.Map, *types.Chan:
 		return and("(<= 0 "+x+")", "(< "+x+" "+alloc+")")
 	case *types.Slice:
-		return and("(<= 0 (s.arr "+x+"))", "(< (s.arr "+x+") "+alloc+")", "(<= 0 (s.off "+x+"))", "(<= 0 (s.len "+x+"))", "(<= (s.len "+x+") (s.cap "+x+"))",
+		return and("(<= 0 (s.arr "+x+"))", "(< (s.arr "+x+") "+alloc+")", "(<= 0 (s.off "+x+"))", "(<= 0 (s.len "+x+"))", "(<= (s.len "+x+") (s.cap "+x+"))", "(< (s.cap "+x+") 9223372036854775808)",
 			"(=> (= (s.arr "+x+") 0) (= (s.cap "+x+") 0))")
 	case *types.Interface:
 		return and("(<= 0 (i.tag "+x+"))", "(< (i.val "+x+") "+alloc+")", "(=> (= (i.tag "+x+") 0) (= (i.val "+x+") 0))")
